@@ -60,6 +60,11 @@ func c07Hist(ctx *Ctx, idx int) *Hist {
 	}
 	hc := HistCfg{Steps: r.Range(10, 30), NColls: r.Range(1, 2), NKeys: r.Range(4, 10), KeyClass: gen.KeysShort, ValClass: gen.ValsMixed,
 		Prio: gen.PrioRegime(r.Intn(int(gen.NumPrioRegimes))), Mix: mixC07, MaxSnaps: 2}
+	if idx%5 == 3 {
+		// keys longer than one read-ahead unit are loaded with more than one ReadAt
+		hc.KeyClass, hc.NKeys = gen.KeysLong, r.Range(4, 6)
+		ctx.Stats["c07.long-key-cases"]++
+	}
 	h := NewHist(r, cfg, hc, fmt.Sprintf("c07-%d", idx))
 	// a durable start so that early operations already read the file
 	for i := 0; i < 4 && !h.E.Failed(); i++ {
